@@ -1,1 +1,12 @@
 import Abmarl.Props.C15
+#print axioms Abmarl.C15_openspiel
+#print axioms Abmarl.C15_gym_projection
+#print axioms Abmarl.gymCall_sound
+#print axioms Abmarl.osRun_sound
+#print axioms Abmarl.osStep_sound
+#print axioms Abmarl.osReset_sound
+#print axioms Abmarl.C15_stub
+#print axioms Abmarl.C15_gym_stub
+#print axioms Abmarl.c15_all_learning_present
+#print axioms Abmarl.c15_one_manager_step
+#print axioms Abmarl.c15_current_player_live
